@@ -234,7 +234,18 @@ def run(ch: Checker) -> None:
             if p.exit_kind != 'return':
                 continue
             fd = allfacts(p)
-            if fd.get('len(parts) == 1') is True:
+            def _no_crlf(k: str, v: bool) -> bool:
+                k = k.replace(' ', '')
+                if 'CRLF' not in k:
+                    return False
+                if k.startswith('len(') and '.split(CRLF,1))==' in k:
+                    return (k.endswith('==1') and v is True) or (k.endswith('==2') and v is False)
+                if k.endswith('.find(CRLF)==-1'):
+                    return v is True
+                if k.startswith('CRLFin'):
+                    return v is False
+                return False
+            if any(_no_crlf(k, v) for k, v in fd.items()):
                 # first loop iteration without CRLF: must return (False, <input unchanged>)
                 sym = Sym(p)
                 last = p.stmts()[-1]
